@@ -21,6 +21,38 @@ CHECKS = {
               "CPython's own parse tree); collapse axioms; z3 character domain <= U+2FFFF; strings with non-XSD Unicode whitespace outside the proved domain; "
               "known findings are delimited by region predicates and the obligation is proved outside them."),
         technique='contract-based deductive verification: path-wise VCs from instrumented native execution of the real constructors, discharged by z3 (strings/regex/LIA/LRA)'),
+    'C03': dict(
+        category='proof',
+        text=("Postconditions of import against the vendored schema: every finite quantifier of the property (441 element names, 228 complex types, 45 attribute groups, "
+              "158 simple-type classes) is enumerated completely on the real import-time objects, in a pristine and in a warmed process state; the content-model clause is a "
+              "language-equivalence proof per type (template tree and per-instance copy read back into a regex, xor-membership refuted by z3's regex theory) for all words."),
+        design_ref='DESIGN.md 5 C03',
+        note='xsdspec reading of the vendored XSD; z3 regex decision procedure; naming rule restated in the contract; known findings matched by exact failure signature.',
+        technique='postconditions of import checked by complete enumeration + z3 regex language equivalence'),
+    'C04': dict(
+        category='other',
+        text=("Contracts on _set_attributes/_check_attribute/__setattr__/_check_required_attributes/_create_et_xml_element per element class (441) in two global pre-states: "
+              "declared keys x spellings x surfaces x callee verdicts enumerated completely against the callee contract; UNDECLARED keys as one symbolic z3 string per class and "
+              "surface (all keys, discharged by z3 on the instrumented real code); required-attribute clause over all subsets; serialised names through a recording ElementTree stub."),
+        design_ref='DESIGN.md 5 C04',
+        note=("callee XSDAttribute.__call__ by contract (delegation checked, simple types are C05); replace_key_underline_with_hyphen by an uninterpreted hyph() with a bounded "
+              "lemma; ElementTree.Element stores its arguments verbatim (assumed)."),
+        technique='contract-based verification: callee-by-contract enumeration + symbolic-key VCs discharged by z3'),
+    'C14': dict(
+        category='other',
+        text=("Contract of XMLElement.__deepcopy__ (abstract equality of result and self, identity frame on self, disjoint ownership regions) checked per element class over a "
+              "complete partition of the kwargs/attributes pre-state relation, changed value and xsd_check; the children clause is bounded (in-order words up to length 2/3)."),
+        design_ref='DESIGN.md 5 C14',
+        note='callee contracts for attribute validation; children clause bounded and restricted to words the matcher accepts (C02).',
+        technique='contract checking of the real __deepcopy__ over a complete pre-state partition (finite-complete) + bounded children clause'),
+    'C17': dict(
+        category='proof',
+        text=("Effect contract of write() with the assumed contract of open(): the body is loop-free, both outcomes of the callee contract of to_string are enumerated (complete), "
+              "the real body is additionally traced to show that nothing that can raise runs while the destination is open; every open() call site satisfies the "
+              "locale-independence precondition statically (AST) and at run time."),
+        design_ref='DESIGN.md 5 C17',
+        note='assumed contracts of open(), ElementTree.parse on binary files; to_string by contract at the call site.',
+        technique='effect contracts with assumed contract of open(); complete path enumeration of a loop-free body; call-site precondition scan'),
 }
 
 NOT_YET = "check under construction (build phase); see DESIGN.md"
